@@ -6,7 +6,7 @@
 From Coq Require Import ZArith List Bool Lia.
 Import ListNotations.
 Require Import Base.Py Base.ZList Gen.Gen_tags Model.Splice Model.Fam_flac
-  Proofs.Fam_flac_codec Proofs.Fam_flac_walk Proofs.Fam_flac_save Proofs.Fam_flac_thms Proofs.Fam_flac_final Proofs.Fam_flac_examples.
+  Proofs.Fam_flac_codec Proofs.Fam_flac_walk Proofs.Fam_flac_save Proofs.Fam_flac_thms Proofs.Fam_flac_final Proofs.Fam_flac_session Proofs.Fam_flac_examples.
 Open Scope Z_scope.
 
 Theorem C03_flac_wf_parses : forall f, flac_wf f = true -> exists s, flac_parse f = Ok s /\ struct_wf s = true.
@@ -48,6 +48,27 @@ Print Assumptions C03_flac_history_streaminfo.
 Theorem C03_flac_loads : forall f s, flac_parse f = Ok s -> struct_wf s = true -> flac_open f = Ok (fblocks s).
 Proof. intros f s Hp Hw. exact (wf_open f s (struct_facts f s Hp Hw)). Qed.
 Print Assumptions C03_flac_loads.
+
+(* the same for histories through a live object (reload, add_tags, save with the object's tags or without tags, delete
+   through the object, module-level delete), whose block list may be stale *)
+Theorem C03_flac_session : forall ops f, flac_wf f = true ->
+  flac_wf (ss_file (fold_left sess_step ops (mkSess f None))) = true /\
+  preserved f (ss_file (fold_left sess_step ops (mkSess f None))).
+Proof. exact session_wf. Qed.
+Print Assumptions C03_flac_session.
+(* one step, with the invariant that carries it: the object agrees with the file on all foreign blocks *)
+Theorem C03_flac_session_step : forall s o, sess_inv s ->
+  sess_inv (sess_step s o) /\ preserved (ss_file s) (ss_file (sess_step s o)).
+Proof. exact sess_step_inv. Qed.
+Print Assumptions C03_flac_session_step.
+
+(* with deleteid3=True the statement is false for files with fewer than 128 bytes of audio: the ID3v1 test looks at the
+   last 128 bytes of the file, which then lie inside the metadata blocks (concrete file: STREAMINFO + 10 audio bytes,
+   title = "TAG" + 111 bytes, padding 0; the 192-byte result is cut to 64 bytes).  Hence o_deleteid3 o = false above. *)
+Theorem C03_flac_deleteid3_refuted : exists f t o f', flac_wf f = true /\ vc_valid t = true /\ o_deleteid3 o = true /\
+  flac_save f t o = Ok f' /\ flac_wf f' = false /\ flac_load f' = Raise EMutagen.
+Proof. exact deleteid3_short_refuted. Qed.
+Print Assumptions C03_flac_deleteid3_refuted.
 
 Example C03_flac_ex_wf : flac_wf ex_file = true /\ flac_wf ex_notags = true.
 Proof. exact ex_wf. Qed.
